@@ -275,10 +275,10 @@ func TestPropRandom(t *testing.T) {
 
 func TestReplayRegressions(t *testing.T) {
 	cases := []struct {
-		name       string
-		delim      rune
-		ref, pat   string
-		want       bool
+		name     string
+		delim    rune
+		ref, pat string
+		want     bool
 	}{
 		{"INBOX", '/', "", "*", true}, {"a/b", '/', "", "%", false}, {"a/b", '/', "", "%/%", true}, {"a/b", 0, "", "%", true},
 		{"Misato/Misato", '/', "Shinji", "/Misato/*", true}, {"Misato/Misato", '/', "Misato", "/Misato", false},
